@@ -595,7 +595,8 @@ class Card:
 
         *subsection_names, leaf_node_name = split_subsection_names(key)
 
-        if not leaf_node_name:
+        # no section name may be empty, as in Section.select
+        if not leaf_node_name or not all(subsection_names):
             msg = f"Section name cannot be empty but got '{key}'"
             raise KeyError(msg)
 
@@ -636,7 +637,7 @@ class Card:
         else:
             *subsection_names, leaf_node_name = key
 
-        if not leaf_node_name:
+        if not leaf_node_name or not all(subsection_names):
             msg = f"Section name cannot be empty but got '{key}'"
             raise KeyError(msg)
 
